@@ -239,5 +239,18 @@ EXTRA = {
     "C19": "The commit behaviours of InelasticCommit.tla are also replayed on a QUAD4 + TRI3 mesh: every element group goes through the trial / commit cycle.",
     "C20": "Size classes: a third-order type with 7 - 8 parts (its boundary group is listed after the bulk type) in the quick tier, 24 - 64 parts on meshes of 2000 - 4000 nodes in the thorough tier, judged by Trace_Partition.tla.",
 }
+# extensions of round 10
+EXTRA10 = {
+    "C01": "The (value, unknown) pairs of the boundary data are listed in canonical and in reverse order.",
+    "C03": "Among the real simulation classes compared with the dense scatter-add is a plate merged from a QUAD4 and a TRI3 mesh, the quadrangles inserted first (an order of the element groups the mesher never produces).",
+    "C04": "The Lagrange route also carries a condition that ties a free dof to a prescribed one (the non-zero prescribed value enters the multiplier row); every fourth behaviour is replayed with all values multiplied by 1e-11 and 1e9.",
+    "C08": "Every frame is also replayed on the pentagon merged with its mirror image (one element group holding elements of both orientations): measure and point location.",
+    "C09": "Every load state is also replayed on the box meshed in two pieces of different element types and merged (two groups of the integration dimension), and every third load again with its intensity multiplied by 1e-9.",
+    "C12": "The quick tier has a configuration with operands up to rank 4 (fourth-order constants in dot / ddot / matmul).",
+    "C15": "The adapter ElasticMerged (quadrangles inserted before triangles) runs the store behaviours and short reload behaviours (Solve / SaveIter / SetMesh / SaveLoad / SetIter): element groups and connectivity of the mesh are compared after Save / Load and after every Set_Iter (meshes of the history that are not current are read back from disk).",
+    "C16": "Every name is also recorded on a random state 1e-9 times smaller; Calc_Reaction is compared with K u (+ C v) (+ M a) under every time scheme on a damped random state.",
+}
 for _k, _v in EXTRA.items():
+    CLAIMS[_k]["text"] += " " + _v
+for _k, _v in EXTRA10.items():
     CLAIMS[_k]["text"] += " " + _v
